@@ -197,6 +197,9 @@ pub struct Config {
     pub p_fault: u32,
     pub p_probe: u32,
     pub quiesce: bool,
+    /// values may repeat: equal values written concurrently to a register, equal elements in a GList
+    #[serde(default)]
+    pub dup_values: bool,
 }
 
 impl Config {
